@@ -21,6 +21,14 @@ Exploration: configuration space, five kinds of states
 * ``deform``   linear_deform / LinDeformFixedTempl / LinDeformFixedDisp: every constant
                displacement of D^d plus a field that cycles through D (the map is point-wise).
 
+Magnitude regimes (interp, resample, deform, sample): the same states with all coordinates
+mapped by x -> offset + scale * x (tiny units 2^-30, huge units 2^30, far from the origin 2^20)
+and with the values scaled by 2^-40 / 2^40 -- exact maps under which the property is invariant,
+so absolute / relative tolerances hidden in the library become visible.  Order of the points:
+every mesh / point array also reversed, rotated, interleaved and with the points outside the
+hull first / in the middle.  Derived operators: Resampling(...).inverse / .adjoint,
+LinDeformFixedDisp(...).inverse, LinDeformFixedTempl(...).derivative.
+
 Reference: mc/ref/interp_ref.py (weights by bisection in exact rational arithmetic).
 """
 import functools
@@ -361,8 +369,8 @@ def configs(tier):
                 if d < 3 or th:
                     out.append({'kind': 'deform', 'space': spn, 'scheme': sc,
                                 'via': 'FixedDisp.inverse', 'dtype': 'f64'})
-                # derivative w.r.t. the displacement (needs a uniform partition: Gradient)
-                if d < 3 and all(n.startswith('ud') for n in spn):
+                # derivative w.r.t. the displacement (Gradient: uniform partition, >= 2 nodes)
+                if d < 3 and all(n.startswith('ud') and len(P1[n]) > 1 for n in spn):
                     for name in (None, 'tiny', 'far'):
                         if name is None or _reg_ok([P1[n] for n in spn], name):
                             c = {'kind': 'deform', 'space': spn, 'scheme': sc,
@@ -375,6 +383,8 @@ def configs(tier):
                     if not _reg_ok([P1[n] for n in spn], name):
                         continue
                     if d == 3 and not th and (name != 'tiny' or sc['fn'] == 'per_axis'):
+                        continue
+                    if d == 3 and name not in ('tiny', 'far'):
                         continue
                     for via in ('function', 'FixedTempl', 'FixedDisp', 'FixedDisp.inverse'):
                         if via == 'FixedDisp.inverse' and d == 3:
@@ -2381,8 +2391,8 @@ def summarize(results):
 def meta(tier):
     th = tier == 'thorough'
     return {
-        'rule': 'one state = one configuration of one of six kinds (sample, sfunc, interp, '
-                'resample, deform, history).  history: one callable object (vectorize wrapper, '
+        'rule': 'one state = one configuration of one of seven kinds (sample, sfunc, interp, '
+                'resample, deform, history, sdtype).  history: one callable object (vectorize wrapper, '
                 'sampling_function result, interpolator) x first call x every continuation up '
                 'to the depth; each call must equal bit for bit the same call on a fresh '
                 'object.  "For all value arrays" is decided by linearity: the full '
@@ -2424,6 +2434,23 @@ def meta(tier):
             'out_layouts': 'fresh C-contiguous, Fortran-ordered (ndim >= 2), every second entry '
                            'of the last axis of a larger buffer (the gaps must stay untouched); '
                            'linear_deform also with out = the data array of the template',
+            'magnitude_regimes': {k: REGIMES[k] for k in sorted(REGIMES)},
+            'magnitude_regimes_applied_to': 'interp (all 1-d grids x schemes x f64/f32/c128, '
+                                            'five 2-d grids, one 3-d grid), resample (every 1-d '
+                                            'pair, five 2-d pairs of equal shape with shifted '
+                                            'nodes), deform (every space x scheme x entry point, '
+                                            'f64; 3-d: tiny only), sample (3 shapes x 5 styles x '
+                                            '3 grids; coordinate regimes).  "far" only where '
+                                            'the image of every node is exact',
+            'point_orders': 'given (outside points last), reversed, rotated, interleaved, '
+                            'outside points first, outside points in the middle (first and last '
+                            'entry inside the hull); all axes at once and one axis only; mesh, '
+                            'mesh with out, point_collocation(interpolator, mesh), point array',
+            'derived_operators': 'Resampling(range, domain, interp).inverse / .adjoint (full '
+                                 'matrix, 1-d all pairs; 2-d equal-shape pairs), '
+                                 'LinDeformFixedDisp(-v).inverse, LinDeformFixedTempl.derivative '
+                                 '(vector field at v = reference weights applied to the vector '
+                                 'field at 0; uniform partitions, 1-d / 2-d)',
             'sample_shapes': '{1,2,3,4}^d, d=1,2; ' + ('{1,2,3,4}^3' if th else '{1,2,3}^3'),
             'callable_styles': SAMPLE_STYLES,
             'partitions_of_[0,4]': P1,
@@ -2453,6 +2480,16 @@ def meta(tier):
             'scheme farther outside than the documented virtual zero node (evaluated at 1.5, '
             '2, 3, 10 spacings out in 1-d/2-d: nearest judged, linear masked); integer or string '
             'values with a linear axis; string values with per_axis_interpolator',
+            'magnitude regimes: the maps x -> offset + scale * x (scale a power of two, offset '
+            '2^20 only on grids whose images are exactly representable) and f -> 2^k f are exact '
+            'in binary arithmetic, interpolation weights depend on ratios of lengths only and '
+            'the result is linear in the values: the same exact-equality oracle is used; where '
+            'a tolerance applies it is relative to the magnitude of the values of the regime',
+            'mesh vectors are not required to be sorted either (same reason as point arrays)',
+            'LinDeformFixedTempl.derivative: only the documented structure "grad I evaluated at '
+            'x + v(x)" is judged (against the gradient field the operator itself reports at '
+            'v = 0), not the discretisation of the gradient; LinDeformFixedDisp.adjoint '
+            '(documented as an approximation) is not judged',
             'numpy.vectorize infers the output type from the first point (a scalar function '
             'returning an int there truncates the rest); scalar functions used here return '
             'float/complex everywhere, the pitfall is numpy\'s documented behaviour',
